@@ -530,7 +530,7 @@ pub fn run_rt(ctx: &Ctx, scn: &Value) -> Vec<Value> {
             if ends[k] <= e.consumed {
                 authc += plens[k];
             }
-            if ends[k] + lag < e.consumed {
+            if (k + 2 < auth_n && ends[k + 2] < e.consumed) || ends[k] + lag < e.consumed {
                 due += plens[k];
             }
         }
@@ -917,7 +917,7 @@ pub fn run_dec(ctx: &Ctx, scn: &Value) -> Vec<Value> {
             if ends[k] <= e.consumed {
                 authc += plens[k];
             }
-            if ends[k] + lag < e.consumed {
+            if (k + 2 < auth_n && ends[k + 2] < e.consumed) || ends[k] + lag < e.consumed {
                 due += plens[k];
             }
         }
